@@ -74,9 +74,33 @@ func verifCoseTBS(m *cose.Sign1Message, external []byte) ([]byte, error) {
 	return []byte{byte(idx)}, nil
 }
 
+// verifCanonProt: the bytes go-cose serialises a locally built protected header to: an
+// (arbitrary but fixed, non-empty) byte string per algorithm value; the empty header is h''.
+func verifCanonProt(hasAlg bool, alg int64) []byte {
+	if !hasAlg {
+		return []byte{}
+	}
+	if alg == int64(cose.AlgorithmES256) {
+		b := ndBytes("canon.prot.es256")
+		ndAssume(len(b) > 0)
+		return b
+	}
+	b := ndBytes("canon.prot.other")
+	ndAssume(len(b) > 0)
+	return b
+}
+
+// effective protected bytes: what the signature really covers (RFC 9052: the bytes as
+// received when the header was decoded, the canonical serialisation when built locally)
+func (r verifTBSRec) prot() []byte {
+	if r.rawProt != nil {
+		return r.rawProt
+	}
+	return verifCanonProt(r.hasAlg, r.alg)
+}
+
 func verifTBSEq(a, b verifTBSRec) bool {
-	return a.hasAlg == b.hasAlg && (!a.hasAlg || a.alg == b.alg) && verifSameBytes(a.rawProt, b.rawProt) &&
-		verifSameBytes(a.ext, b.ext) && verifSameBytes(a.payload, b.payload)
+	return verifSameBytes(a.prot(), b.prot()) && verifSameBytes(a.ext, b.ext) && verifSameBytes(a.payload, b.payload)
 }
 
 // keys: kind 0 = EC, 1 = RSA, 2 = Ed25519
@@ -175,6 +199,10 @@ func verifCoseUnmarshal(m *cose.Sign1Message, data []byte) error {
 	for _, t := range verifCose.toks {
 		if verifIsSameBuffer(data, t.bytes) {
 			*m = t.msg
+			if m.Headers.RawProtected == nil {
+				alg, err := m.Headers.Protected.Algorithm()
+				m.Headers.RawProtected = verifCanonProt(err == nil, int64(alg))
+			}
 			return nil
 		}
 	}
